@@ -260,8 +260,14 @@ func (k Keeper) CalculatePrice(
 
 	price, err := types.MedianValidatorPriceInfos(validatorPriceInfos)
 	if err != nil {
-		// should not happen
-		return types.Price{}, err
+		// no available price to aggregate: this is reachable when the power quorum is zero and nobody has
+		// reported yet, and must not fail the end-block processing.
+		return types.NewPrice(
+			types.PRICE_STATUS_NOT_READY,
+			feed.SignalID,
+			0,
+			ctx.BlockTime().Unix(),
+		), nil
 	}
 
 	return types.NewPrice(
